@@ -259,8 +259,9 @@ Proof.
       - f_equal. lia.
       - intros k Hk. unfold subP. destruct (Nat.leb_spec (k + nsize) ep) as [L|L]; cbn [andb]; [|reflexivity].
         destruct (matchb cs h needle nsize k) eqn:M; [|reflexivity].
-        rewrite (match_hit cs h needle nsize k n0) in F3; try assumption; try lia.
-        specialize (F3 k Hk). discriminate. }
+        specialize (F3 k Hk).
+        assert (Hh : hit_at cs h n0 k = true) by (apply (match_hit cs h needle nsize k n0); try assumption; lia).
+        congruence. }
     rewrite Skip.
     destruct (Nat.ltb_spec ep (cp' + nsize)) as [L|L].
     + symmetry. f_equal. apply first_from_none. intros k Hk. unfold subP.
@@ -275,7 +276,8 @@ Proof.
     pose proof (proj1 (first_from_none _ _ _) F k Hk) as Hk'.
     unfold subP. destruct (Nat.leb_spec (k + nsize) ep) as [L|L]; cbn [andb]; [|reflexivity].
     destruct (matchb cs h needle nsize k) eqn:M; [|reflexivity].
-    rewrite (match_hit cs h needle nsize k n0) in Hk'; try assumption; try lia. discriminate.
+    assert (Hh : hit_at cs h n0 k = true) by (apply (match_hit cs h needle nsize k n0); try assumption; lia).
+    congruence.
 Qed.
 
 Lemma find_sub_spec cs h needle nsize start size :
@@ -305,8 +307,16 @@ Proof.
   destruct (Nat.leb_spec (i + length n) ep) as [L|L]; cbn [andb]; [|reflexivity].
   destruct (Nat.leb_spec (i + length n) (length s)) as [L2|L2]; [|lia]. cbn [andb].
   rewrite firstn_skipn_app_le by lia. rewrite firstn_app_le by lia. rewrite firstn_all.
-  rewrite <- skipn_map, <- firstn_map. reflexivity.
+  rewrite skipn_map, firstn_map. reflexivity.
 Qed.
+
+Lemma case_map_length ci s : length (case_map ci s) = length s.
+Proof. destruct ci; cbn [case_map]; [apply map_length|reflexivity]. Qed.
+
+Lemma occurs_atb_bound ci s n k :
+  ((k + length n <=? length s)%nat && occurs_atb (case_map ci s) (case_map ci n) k)
+  = occurs_atb (case_map ci s) (case_map ci n) k.
+Proof. unfold occurs_atb. rewrite !case_map_length. destruct (k + length n <=? length s)%nat; reflexivity. Qed.
 
 (* ------------------------------------------------------------------ _find and the find front ends *)
 Lemma ssize_idx o : ssize_of o = idx o.
@@ -328,9 +338,7 @@ Proof.
   - cbn [bind]. f_equal. rewrite ssize_idx. f_equal. unfold find_spec.
     destruct n as [|c n]; [congruence|]. unfold len in Hst. rewrite Hst.
     rewrite L2. replace (N.to_nat (sub64 (len s) start)) with (length s - N.to_nat start)%nat by lia.
-    apply first_from_ext. intros k Hk. rewrite subP_occurs by lia.
-    unfold occurs_atb at 1. rewrite !cm_map, !map_length.
-    destruct (Nat.leb_spec (k + length (c :: n)) (length s)); reflexivity.
+    apply first_from_ext. intros k Hk. rewrite subP_occurs by lia. apply occurs_atb_bound.
   - apply units_ok_cstr. exact Bs.
   - destruct n; [congruence|cbn [length]; lia].
   - rewrite app_length. lia.
@@ -347,7 +355,7 @@ Proof.
   - assert (n <> []) by (intros ->; apply E; reflexivity).
     destruct (len s <=? start) eqn:G.
     + unfold find_spec. destruct n; [congruence|]. unfold len in G. rewrite G. reflexivity.
-    + unfold len at 2. rewrite Nat2N.id. apply _find_spec; assumption.
+    + replace (N.to_nat (len n)) with (length n) by (unfold len; lia). apply _find_spec; assumption.
 Qed.
 
 Theorem find_pn_null cs s start count : find_pn cs s start None count = Ok (-1)%Z.
@@ -389,7 +397,7 @@ Proof.
   destruct (Nat.leb_spec (i + 1) (length s)); [|lia]. cbn [andb].
   destruct (at_skipn s i Hi) as [c [E [S _]]].
   rewrite nth_error_app1 by lia. unfold at_, of_opt in E. destruct (nth_error s i) as [c'|]; [|discriminate].
-  inversion E; subst c'. rewrite <- skipn_map, S. cbn [map firstn list_eqb]. rewrite andb_true_r. reflexivity.
+  inversion E; subst c'. rewrite skipn_map, S. cbn [map firstn list_eqb]. rewrite andb_true_r. reflexivity.
 Qed.
 
 Theorem find_char_spec cs s start ch :
@@ -528,7 +536,7 @@ Proof.
   - assert (n <> []) by (intros ->; apply E; reflexivity).
     destruct (len s =? 0) eqn:G.
     + apply len_zero in G. subst s. rewrite find_last_spec_empty. reflexivity.
-    + unfold len at 2. rewrite Nat2N.id. apply _find_last_spec; assumption.
+    + replace (N.to_nat (len n)) with (length n) by (unfold len; lia). apply _find_last_spec; assumption.
 Qed.
 
 Theorem find_last_pn_null cs s max count : find_last_pn cs s max None count = Ok (-1)%Z.
@@ -715,7 +723,7 @@ Proof.
   - rewrite E in E'. inversion E'; subst z'. rewrite Z0. unfold matchb, ends_with_spec.
     destruct (Nat.leb_spec (length p) (length s)); [|lia]. cbn [andb].
     rewrite firstn_skipn_app_le by lia. rewrite firstn_app_le by lia. rewrite firstn_all.
-    rewrite !cm_map, <- skipn_map. f_equal.
+    rewrite !cm_map, skipn_map. f_equal. f_equal.
     rewrite firstn_all2; [reflexivity|]. rewrite skipn_length. lia.
 Qed.
 
@@ -769,3 +777,9 @@ Theorem find_last_total cs s max n tn : units_ok cs s -> units_ok cs (n ++ tn) -
 Proof.
   intros Bs Bn. rewrite find_last_pn_spec by assumption. rewrite find_last_char_spec. split; reflexivity.
 Qed.
+
+Example find_examples :
+  find_s CaseSensitive [97; 97; 97; 98] 0 [97; 97; 98] = Ok 1%Z /\
+  find_last_s CaseInsensitive [97; 65; 97; 97] 3 [97; 97] = Ok 1%Z /\
+  find_last_s CaseInsensitive [97; 65; 97; 97] 18446744073709551615 [97; 97] = Ok 2%Z.
+Proof. vm_compute. repeat split; reflexivity. Qed.
